@@ -22,14 +22,15 @@ var c08Steps = []hv.Step{
 	{Op: "W", N: 0}, {Op: "W", N: 1}, {Op: "W", N: 3},
 	{Op: "Set", K: "X-A", V: "1"}, {Op: "Set", K: "Content-Type", V: "text/x"}, {Op: "Del", K: "X-A"},
 	{Op: "Set", K: "X-B", V: "2"},
-	{Op: "WH", N: 103},            // an informational response: status and headers of the final one are still open
-	{Op: "Mut", K: "X-B", V: "9"}, // the value slice of a header edited in place
-	{Op: "KSet", K: "X-K", V: "3"}, // a header set through the map the handler obtained before anything was written
-	{Op: "Copy", N: 5},              // body bytes streamed with io.Copy
-	{Op: "WH", N: 200},              // an explicit 200 commits status and headers like any other explicit status
-	{Op: "Flush"},                   // flushes through whatever the writer offers (http.Flusher or a ResponseController)
-	{Op: "Wchk", N: 2},              // a write whose result is checked: anything but (2, nil) ends the handler
-	{Op: "IfH", K: "X-A", V: "1", N: 2}, // two more bytes if the handler reads X-A: 1 back from its own response headers
+	{Op: "WH", N: 103},                        // an informational response: status and headers of the final one are still open
+	{Op: "Mut", K: "X-B", V: "9"},             // the value slice of a header edited in place
+	{Op: "KSet", K: "X-K", V: "3"},            // a header set through the map the handler obtained before anything was written
+	{Op: "Copy", N: 5},                        // body bytes streamed with io.Copy
+	{Op: "WH", N: 200},                        // an explicit 200 commits status and headers like any other explicit status
+	{Op: "Flush"},                             // flushes through whatever the writer offers (http.Flusher or a ResponseController)
+	{Op: "Wchk", N: 2},                        // a write whose result is checked: anything but (2, nil) ends the handler
+	{Op: "IfH", K: "X-A", V: "1", N: 2},       // two more bytes if the handler reads X-A: 1 back from its own response headers
+	{Op: "Set", K: "Content-Length", V: "10"}, // a length the handler announces itself and then does not keep to
 }
 
 // progWrites is what a program writes, by the net/http contract: whether it sends the header itself, the body bytes
